@@ -10,7 +10,9 @@ MANIFEST = {
         "technique": "Lean 4 proof (inductive invariant over all reachable states of an interleaving transition system of "
                      "the atomic reference-count steps, any number of threads/handles/schedules; single-threaded API "
                      "histories as the special case) + differential correspondence of the model with the real String / "
-                     "Variant / Xml::Variant / RefCount::Ptr code under a ledger allocator and a controlled scheduler",
+                     "Variant / Xml::Variant / RefCount::Ptr code under a ledger allocator and a controlled scheduler + tie by "
+                     "translation: tools/gen_rc.py re-translates 25 acquire / release / exchange bodies of the current headers on "
+                     "every run and Lean proves their interpretation equal to the model's step lists (PropsTie.lean)",
         "text": "Theorems (Props.lean) over every reachable state of the Lean model (heap of counted blocks, handle slots owned by "
                 "threads - top-level variables/temporaries and a FAMILY of handle slots embedded in every payload block -, atomic steps "
                 "inc / dec-and-test / plain counter read / alloc / in-place write / free, and on embedded handles incE / takeE / putE / takeF / "
@@ -37,7 +39,23 @@ MANIFEST = {
                 "handle are never rejected; calls that create or walk next handles and the nested calls: acceptance is a hypothesis, "
                 "validated by examples and by the correspondence run); no_use_after_drop now for ALL calls of Model.lean incl. every "
                 "RefCount::Ptr call and the cascade relP (ptr_stale_ok: for every object graph the step list never reads a handle between "
-                "the decrement through it and the store that overwrites it = the order of Ptr::operator= repaired by D37). NOT covered "
+                "the decrement through it and the store that overwrites it = the order of Ptr::operator= repaired by D37). Round 7: (a) TIE BY TRANSLATION: tools/gen_rc.py "
+                "parses (tokenizer + recursive-descent parser, refusing everything outside its subset) the CURRENT bodies of String(), "
+                "String(const char(&)[N]), String(const String&), ~String(), String::operator=, String::attach; Variant(), Variant(const "
+                "Variant&), ~Variant(), Variant::clear(), Variant::operator=(const Variant&); the same five of Xml::Variant; RefCount::Ptr(), "
+                "Ptr(const Ptr&), Ptr(D*), Ptr(const Ptr<D>&), ~Ptr(), the three Ptr::operator= and Ptr::swap into values of a small statement "
+                "language (Ir.lean: bind / increment / release / store / allocate-copy / fill-inline / if over counted, static, not-self) in "
+                "lean/Nstd/Generated/RcBodies.lean; PropsTie.lean (theorems tie_*) proves for EVERY state that the interpretation Ir.sem of "
+                "these bodies is the step list pre of the model's call (sCopy, sAssign, sDel, sLit, sLitU, vCopy, vClear, vAssign, xCopy, xClear, "
+                "xAssign, pCopy, pAssign, pClear, pSwap) up to the no-op marker clr, and that every Ptr body treats obj like refObj "
+                "(tie_Ptr_fields_mirror): an increment moved behind the release, a missing increment, a release through the wrong handle, a "
+                "one-field swap changes the generated value and the equalities no longer check. (b) New calls in model, theorems and "
+                "correspondence: String(usize capacity), attach to unterminated memory + operator const char*() (both overloads), toUpperCase, "
+                "Variant(const String&/List&/Array&/HashMap&), Xml::Variant(const String&/Element&) as NOp constructors (covered by all "
+                "nested_* theorems, callOk, lowRecv_lists; mt_calls_admitted: every call may be started by any thread of SReach); "
+                "String(literal), append(const String&), append(char), operator+=, prepend(const String&), detach() are driven on the real "
+                "class and resolved by the driver, in the state in which the call starts, to the model calls sLit / sAppend / sPrepend / sEdit "
+                "whose step lists they share. NOT covered "
                 "by any C09 theorem: in-place writes through an embedded handle, the String inside a Variant/Xml::Variant box (flat "
                 "content, hence the cross-kind calls Variant = String variable / String = variant.toString()), boxed elements of "
                 "map payloads and Xml attributes, cascade completeness for d->next = s on a shared object. The model is tied to the current headers on every run: identical op lines are executed by "
@@ -49,7 +67,15 @@ MANIFEST = {
                 "Python oracle checks value semantics (nested values through the embedded handles), the object graph and ledger "
                 "consistency on the implementation's output.",
         "note": "Trusted: Lean kernel + the three standard axioms; the hand translation of the API calls into step sequences "
-                "(Model.lean pre/post, Nested.lean preN/postN/runC), validated by the correspondence run only; sequentially consistent "
+                "(Model.lean pre/post, Nested.lean preN/postN/runC), validated by the correspondence run only EXCEPT for the 15 calls whose "
+                "pre lists PropsTie.lean proves equal to the interpretation of the translated bodies; for those the trusted part is the "
+                "translator's statement patterns (tools/gen_rc.py) and the generic interpretation Ir.exec/Ir.sem (what a pointer variable "
+                "denotes; increment through `data` after `data = other.data` = inc d s, through a local = inc T s and the later store = move; "
+                "release = dec; free, for Ptr the model's relP incl. the destructor of the harness' Node; allocation = alloc with the measured "
+                "capacity; the position of clr is not compared). STILL hand-translated and only tied by the correspondence run: every body "
+                "with the plain counter read (String::clear, detach and its callers, the mutable accessors and operator=(T) of Variant / "
+                "Xml::Variant, Variant::swap), the container code behind embedded handles, and the mapping of the resolved op lines "
+                "(append(const String&) etc.) to model calls; sequentially consistent "
                 "atomics (__sync_* are full barriers) - TSO/compiler reordering of the plain counter reads is not modelled; payload "
                 "content is flat except for the embedded handles of RefCount objects (next), Variant list payloads (boxed elements) and "
                 "Xml elements (children); the String inside a Variant/Xml::Variant block, element type/attributes and the list/array/map "
@@ -60,7 +86,8 @@ MANIFEST = {
                 "next handles (plink) are exercised single-threaded only; allocation never fails; the controlled "
                 "interleavings of plain counter reads need the add-only hook patch fixes/rc/hook-01 (without it those reads "
                 "execute together with the preceding atomic step, and the model is run the same way). Partial: apiRun_total_partial, "
-                "apiStep_total_partial (no totality for next-walking and nested calls).",
+                "apiStep_total_partial (no totality for next-walking and nested calls; the round-7 NOp constructors are outside the "
+                "totality / enabledness / no_use_after_drop theorems, which are stated over ApiOp).",
         "design_ref": "DESIGN.md 3/C09",
     }
 }
@@ -255,7 +282,7 @@ class Ref:
             self._acq(new)
             old, o[1] = o[1], new
             self._rel(old)
-        elif op == "pnext":
+        elif op in ("pnext", "prawnext"):
             if d >= 2 or P[d] is None:
                 return False
             self._set(d, self.objs[P[d]][1])
@@ -503,18 +530,18 @@ OPS = {
     "v": ["vcopy", "vassign", "vclear", "vseti", "vsets", "vapp", "vpush", "vswap", "vsetl", "vpusha", "vseta", "vputm", "vsetm",
           "vpushv", "vgetv", "apushv", "agetv", "vctors", "vctorl", "vctora", "vctorm"],
     "x": ["xcopy", "xassign", "xclear", "xsets", "xelem", "xaddc", "xgetc", "xctors", "xctore"],
-    "p": ["pnew", "pcopy", "passign", "pclear", "pswap", "praw", "pctor", "plink", "pnext", "pnextof"],
+    "p": ["pnew", "pcopy", "passign", "pclear", "pswap", "praw", "pctor", "plink", "pnext", "pnextof", "prawnext"],
 }
 ST_ONLY = {"sprintf", "sresize", "plink", "apushv", "agetv"}   # Array growth re-copies the elements: single-threaded only   # not in thread programs (see docs/rc.md)
 W = {
     "s": [3, 1, 4, 4, 2, 5, 2, 2, 2, 2, 2, 2, 2, 2, 1] + [1, 1, 2, 2, 2, 1, 3, 2, 2, 2, 2, 2],
     "v": [4, 4, 2, 2, 3, 4, 3, 2, 2, 3, 1, 3, 1, 6, 4, 4, 3] + [2, 1, 1, 1], "x": [4, 4, 2, 3, 4, 5, 3] + [2, 2],
-    "p": [3, 4, 4, 2, 3, 2, 2, 4, 3, 2],
+    "p": [3, 4, 4, 2, 3, 2, 2, 4, 3, 2, 2],
 }
 TWO = {"scopy", "sassign", "vcopy", "vassign", "vswap", "xcopy", "xassign", "pcopy", "passign", "pswap", "praw", "pctor",
        "plink", "pnextof", "vpushv", "xaddc", "apushv", "sapps", "spluss", "spreps"}
 GET = {"vgetv", "xgetc", "agetv"}
-ONE = {"sclear", "sdel", "vclear", "xclear", "pclear", "slower", "schar", "pnext", "sconst", "sconstm", "sdetach", "supper"}
+ONE = {"sclear", "sdel", "vclear", "xclear", "pclear", "slower", "schar", "pnext", "prawnext", "sconst", "sconstm", "sdetach", "supper"}
 NUM = {"sreserve", "vseti", "vpush", "vsetl", "pnew", "sresize", "sprintf", "vpusha", "vseta", "vctorl", "vctora"}
 NUM2 = {"sreplace", "vputm", "vsetm", "vctorm"}
 assert all(len(OPS[k]) == len(W[k]) for k in OPS)
@@ -612,7 +639,7 @@ SMALL = {
           "vpush 0 1", "vassign 1 0", "xctors 0 61", "xctore 0 62", "xcopy 1 0", "xelem 1 64", "xclear 0", "xassign 0 1"],
     "p": ["pnew 0 1", "pnew 1 2", "pcopy 1 0", "pcopy 2 0", "passign 1 0", "passign 0 1", "passign 0 0", "pclear 0", "pclear 1",
           "pswap 0 1", "pswap 0 0", "pnew 2 3", "passign 0 2", "pctor 1 2", "praw 0 2", "plink 0 1", "plink 1 0", "plink 0 0",
-          "plink 0 2", "pnext 0", "pnext 1", "pnextof 1 0", "pclear 2"],
+          "plink 0 2", "pnext 0", "pnext 1", "pnextof 1 0", "pclear 2", "prawnext 0"],
 }
 
 
